@@ -14,8 +14,8 @@ CHECKS = {
             "every produced handshake/transport message, handshake hash and payload-encrypted flag of each explored session compared byte-for-byte with an independent spec model that consumes the logged RNG draws (honest sessions over all 13 344 names with rekeys and late PSKs, sessions with injected failing calls and retries, the model playing the peer, 472 third-party vectors)", MODEL),
     "C02": ("exploration", "runtime monitoring: agreement oracle over recorded honest histories (completion count, payload and hash equality)", "6/C02",
             "each explored honest session (every name; library-generated keys, OS randomness, PSKs from the builder or set late, payload buffers of every legal size; hfs+Kyber names in thorough) finished after exactly the pattern's message count with all payloads delivered intact and equal hashes", "message counts from the independent pattern table; " + DRIVER),
-    "C06": ("fault_enumeration", "runtime monitoring: offline trace checker over recorded AEAD (key, nonce, ad, plaintext) and RNG events across fault histories", "6/C06",
-            "across enumerated failure causes/positions with retries, conversions and rekeys, no (key, nonce) pair encrypted two different inputs and every ephemeral was drawn inside its write", DRIVER),
+    "C06": ("fault_enumeration", "runtime monitoring: offline trace checker over recorded AEAD (key, nonce, ad, plaintext, keystream prefix), REKEY and RNG events across fault histories", "6/C06",
+            "across enumerated failure causes/positions with retries, conversions and rekeys, no (key, nonce) pair encrypted two different inputs (REKEY counted under the nonce it is observed to consume), no two nonces of one key yielded the same keystream, and every ephemeral was drawn inside its write", DRIVER),
     "C07": ("fault_enumeration", "runtime monitoring: differential twin-session oracle + before/after observation diff across injected failing calls", "6/C07",
             "for every injected failure (cause x token boundary x side), observations were unchanged, the correct step then succeeded and all later outputs equalled those of a fault-free twin", DRIVER),
     "C10": ("exploration", "runtime monitoring: panic hook + catch_unwind + subprocess watchdog under hostile lengths aimed at model-computed boundaries; ASan/valgrind/Miri in thorough", "6/C10",
@@ -25,7 +25,7 @@ CHECKS = {
     "C03": ("fault_enumeration", "runtime monitoring: fault enumeration over in-transit alterations of handshake messages, history oracle from the model's field layout", "6/C03",
             "every enumerated alteration (all bit flips of fixed fields, all truncations, extensions, edits, substitutions) of every message was rejected by the read when an encrypted field is involved, and otherwise never led to both parties finishing without error", "which fields are encrypted follows from the independent token table; another initiator's message 0 is a valid initiation (inherent to Noise) and is judged only for later detection"),
     "C04": ("fault_enumeration", "runtime monitoring: fault enumeration over hostile deliveries to transport reads (one per fresh session), accept-only-genuine oracle", "6/C04",
-            "every hostile delivery (all bit flips, truncations, extensions, reflection, cross-session, cross-direction, replay, wrong nonce) was refused and every genuine control accepted with its payload", "genuine = the register the peer's write produced, for this receiver and nonce (known by construction)"),
+            "every hostile delivery (all bit flips, truncations, extensions, reflection, cross-session, cross-direction, replay, wrong nonce, model-forged over-long messages, cut tag-only messages, objects converted too early) was refused and every genuine control accepted with its payload", "genuine = the register the peer's write produced, for this receiver and nonce (known by construction)"),
     "C05": ("fault_enumeration", "runtime monitoring: delivery-schedule enumeration checked against a sequential model of the receiving nonce", "6/C05",
             "for every enumerated schedule (exhaustive to the length bound, random longer) a delivery was accepted iff it was the next expected message and receiving_nonce() equalled the model after every op", "unique payload tags make the history unambiguous"),
     "C08": ("exploration", "runtime monitoring: history oracle over sessions whose peers differ in exactly one context item", "6/C08",
@@ -44,8 +44,8 @@ CHECKS = {
             "every stateless op in every explored order / thread equalled E(k, n, p) resp. its inverse and the stateful twin's n-th message; race detectors reported nothing (thorough)", "interleavings are sampled (distinct completion orders counted); sanitizers cover the pure-Rust back end"),
     "C18": ("exploration", "runtime monitoring: differential against independent primitives (standards' test vectors, OpenSSL/libsodium cross-check) on the resolver objects", "6/C18",
             "every explored hash/HMAC/HKDF/AEAD/REKEY/DH output of both back ends equalled the model; decrypt rejected every non-genuine input; generated key pairs were consistent and distinct", "objects driven as snow drives them"),
-    "C19": ("exploration", "runtime monitoring: output-buffer inspection after failed authenticated reads against the known random payload", "6/C19",
-            "no explored rejected read (cipher x back end x path x alteration x buffer size) left >= 16 consecutive plaintext bytes in the caller's buffer", "payloads are >= 32 pseudo-random bytes"),
+    "C19": ("exploration", "runtime monitoring: output-buffer inspection after failed authenticated reads against the known random payload and the static keys the message carried", "6/C19",
+            "no explored rejected read (cipher x back end x path x alteration x buffer size) left >= 16 consecutive bytes of the payload or of a decrypted static key in the caller's buffer", "payloads are >= 32 pseudo-random bytes"),
     "C20": ("exploration", "runtime monitoring: differential execution of one scripted scenario under all 9 back-end assignments + exhaustive fallback truth table on self-identifying stub resolvers", "6/C20",
             "all 9 assignments produced identical bytes and observations at every step and completed; FallbackResolver returned exactly the first member providing each primitive", "scripted RNG identical across assignments"),
     "C17": ("exploration", "runtime monitoring: getter snapshot after every op vs. peer's model-computed public key and the token table", "6/C17",
